@@ -38,6 +38,7 @@ Record crule := {
   c_strings : list sdecl;
   c_nlits : list N;             (* per string, the number of literals boreal's Aho-Corasick pass searches for it
                                    (read through the hook Scanner::verif_describe_strings; 0 when unknown) *)
+  c_glue : list bool;           (* per string (hook): compiled with a reverse validator and literals of unequal lengths *)
   c_cond : option expr          (* None: a condition outside the modelled dialect (module probe) *)
 }.
 
@@ -328,25 +329,18 @@ Definition start_position_shape (s : sdecl) (m : bytes) (nlits : N) (y b : list 
                         || existsb (fun bo => (fst yo <? fst bo)
                                               && ((1 <? nlits) || (fst bo <? fst yo + snd yo))) b) y.
 
-(* ---- recorded finding 19 (C07-hex-alt-first-uneven): a hex string that *starts* with an alternation
-   whose branches do not all have the same fixed length, compiled by boreal to several literals.
-   The literals come from the ends of the branches and share one pre / post validator, so the tail of
-   one branch is combined with the start of another: `{ ( ( ~D? FF | 00 92 ?? ) 00 63 | 00 ) ~D? }`
-   on `0E FF 00 63 FB` — libyara (and Spec/Regex.v): (0,5) and (2,2); boreal: (2,3), which is not a
-   member, and (0,5) is missed.  Class (per string): the syntactic shape + more than one literal. *)
-Definition simple_token (t : token) : bool :=
-  match t with TJump _ _ | TAlts _ => false | _ => true end.
-Definition branch_len (ts : list token) : option nat :=
-  if forallb simple_token ts then Some (length ts) else None.
-Definition alt_first_uneven (s : sdecl) : bool :=
-  match s with
-  | SHex (TAlts (b0 :: rest) :: _) =>
-      match branch_len b0 with
-      | None => true
-      | Some n => negb (forallb (fun b => match branch_len b with Some k => Nat.eqb k n | None => false end) rest)
-      end
-  | _ => false
-  end.
+(* ---- recorded finding 19 (C07-alt-glue; C02-alt-glue / C03-alt-glue seen from libyara's side): the
+   literals of a hex or regex string come from an alternation whose branches have different lengths
+   and the string has a reverse validator; the reverse and the forward validator of one literal hit
+   can each follow a different branch (all literals share one pre / post pair), and the assembled
+   (start, end) is not a member — and the member that should have been found there is missed.
+   `{ ( ( ~D? FF | 00 92 ?? ) 00 63 | 00 ) ~D? }` on `0E FF 00 63 FB`: libyara (and Spec/Regex.v)
+   (0,5), (2,2); boreal (2,3).  `/.(x|\S..\b|B1)[^ -%]/ nocase` on `1Ab1_`: libyara (1,4); boreal
+   also (2,3).  Class (per string and input), mirroring Model/HexCase.kf_alt_glue with what can be
+   observed here: the decomposition has that shape (hook: reverse validator, literals of unequal
+   lengths) *and* boreal's list contains a pair that is not a member by the specification. *)
+Definition reports_non_member (s : sdecl) (m : bytes) (b : list (N * N)) : bool :=
+  existsb (fun bo => negb (mem_N (snd bo) (spec_lens s m (fst bo)))) b.
 Definition K_ALT_FIRST : N := 19.
 
 Definition has_word_boundary (s : sdecl) : bool :=
@@ -379,14 +373,14 @@ Definition full_list (s : sdecl) (m : bytes) (y : list (N * N)) : list (N * N) :
                     end)) (spec_offsets_of s m).
 
 (* strings of one rule on one input *)
-Fixpoint strings_check (cond : option expr) (m : bytes) (ss : list sdecl) (nl : list N) (v : nat)
+Fixpoint strings_check (cond : option expr) (m : bytes) (ss : list sdecl) (nl : list N) (gl : list bool) (v : nat)
          (ys bs : list (list (N * N))) : sres :=
   match ss with
   | [] => sres_ok
   | s :: rest =>
       let y := nth_obs v ys in
       let b := nth_obs v bs in
-      sres_and (strings_check cond m rest nl (S v) ys bs)
+      sres_and (strings_check cond m rest nl gl (S v) ys bs)
       (if fullword_ambiguous s m then
         let agree := list_eqb (pair_eqb N.eqb N.eqb) y b in
         mk_sres true true false true (negb agree) 0
@@ -407,7 +401,7 @@ Fixpoint strings_check (cond : option expr) (m : bytes) (ss : list sdecl) (nl : 
       else
         let exact := string_agree s m y b in
         let shape := negb exact && start_position_shape s m (nth v nl 0) y b in
-        let altf := negb exact && negb shape && alt_first_uneven s && (1 <? nth v nl 0) in
+        let altf := negb exact && negb shape && is_pattern s && nth v gl false && reports_non_member s m b in
         let wab := negb exact && negb shape && wide_ascii_boundary s in
         mk_sres (string_spec_ok s m y) (exact || shape || altf || wab) false false false
                 (if wab then K_WIDE_ASCII_WB else if altf then K_ALT_FIRST else if shape then K_START_POS else 0))
@@ -481,9 +475,9 @@ Fixpoint rules_strings (m : bytes) (rs : list crule) (yobs bobs : list obs) : sr
   | r :: rr, y :: yr, b :: br =>
       sres_and (rules_strings m rr yr br)
       match y, b with
-      | Some (_, ys), Some (_, bs) => strings_check (c_cond r) m (c_strings r) (c_nlits r) 0 ys bs
+      | Some (_, ys), Some (_, bs) => strings_check (c_cond r) m (c_strings r) (c_nlits r) (c_glue r) 0 ys bs
       | None, None => hidden_check m (c_strings r)
-      | Some (_, ys), None => no_boreal (strings_check (c_cond r) m (c_strings r) (c_nlits r) 0 ys [])
+      | Some (_, ys), None => no_boreal (strings_check (c_cond r) m (c_strings r) (c_nlits r) (c_glue r) 0 ys [])
       | None, Some _ => no_boreal (hidden_check m (c_strings r))
       end
   | [], [], [] => sres_ok
